@@ -195,7 +195,16 @@ def main(argv=None):
     if tier == "thorough" and proof_ok and not pf.get("coqchk_ok", True):
         proof_ok = False
     if hasattr(mod, "pre_check"):
-        extra = mod.pre_check(workdir, tier)     # e.g. regenerated schema (C18)
+        extra = mod.pre_check(workdir, tier)     # e.g. regenerated schema (C18): obligations over a model regenerated from /repo
+        n_extra = len(extra.get("theorems", []))
+        obligations += n_extra
+        if extra.get("ok"):
+            discharged += n_extra if discharged or not pf["theorems"] else 0
+        else:
+            proof_ok = False
+            pf = dict(pf)
+            pf["theorems"] = list(pf["theorems"]) + ["regenerated:" + t for t in extra.get("theorems", ["schema"])]
+            pf["stderr"] = (pf.get("stderr") or "") + "\n" + str(extra.get("error"))
     else:
         extra = None
 
